@@ -265,13 +265,35 @@ impl<'s, M: Matcher, S: Sink> MultiLine<'s, M, S> {
                 range
             }
             Some(mat) => {
-                let line = lines::locate(
+                let mut line = lines::locate(
                     self.slice,
                     self.config.line_term.as_byte(),
                     mat,
                 );
                 let range = Range::new(self.core.pos(), line.start());
-                self.advance(&line);
+                // The next match may begin on the last line of this one,
+                // after its end. Its lines are matching lines too (the
+                // non-inverted search reports them), so they must be
+                // excluded here as well. Keep looking for matches that start
+                // before the end of the lines excluded so far.
+                self.advance(&mat);
+                while self.core.pos() < line.end() {
+                    match self.find()? {
+                        Some(next) if next.start() < line.end() => {
+                            let next_line = lines::locate(
+                                self.slice,
+                                self.config.line_term.as_byte(),
+                                next,
+                            );
+                            if next_line.end() > line.end() {
+                                line = line.with_end(next_line.end());
+                            }
+                            self.advance(&next);
+                        }
+                        _ => break,
+                    }
+                }
+                self.core.set_pos(line.end());
                 range
             }
         };
